@@ -358,7 +358,25 @@ def shared(ctx):
             ob.unknown(u)
 
 
+def shared_mapping(ctx):
+    ob = ctx.ob("C01.7", "distinct port addresses reach distinct DRAM locations and the burst alignment matches the burst the PHY moves per command "
+                         "(shared with C06.1 partition and C06.5 alignment): otherwise one write lands on another address's bytes", 20)
+    from ..report import Ctx
+    from . import c06
+    sub = Ctx("C06", ctx.tier, ctx.seed, ctx.repo)
+    c06.run(sub)
+    for o in sub.obligations:
+        if o.oid in ("C06.1", "C06.5"):
+            for i in o.instances[:150]:
+                ob.instance(o.oid + ": " + i["what"], i["detail"] or "ok")
+            for r in o.refutations:
+                ob.refute(o.oid + ":" + r["key"], r["msg"], None)
+            for u in o.unknowns:
+                ob.unknown(u)
+
+
 def run(ctx):
+    shared_mapping(ctx)
     shared(ctx)
     bank_queue(ctx)
     alignment(ctx)
